@@ -6,7 +6,7 @@ on one object from five start states, observers read after every step or only at
 model being an integer pair (DESIGN.md 2.3); (3) independence (mc.alias.Keeper): every stamp and
 every pack() result handed out is re-observed after the following cases of the shard.
 
-Never reads the clock: CdsShortTimestamp.now()/from_now()/ms_of_today() are not called."""
+Never reads the clock: CdsShortTimestamp.now()/from_now() are not called, ms_of_today() only with an explicit argument."""
 
 from __future__ import annotations
 
@@ -635,16 +635,60 @@ def hist_cases(tier, kind, day, mode):
     return out
 
 
+_LAST_DECODED = [None]
+
+
 def _decode(entry, raw):
     C = _C()
+    _LAST_DECODED[0] = None
     if entry == "unpack":
         s = C.unpack(raw)
+        _LAST_DECODED[0] = s
         return (s.ccsds_days, s.ms_of_day)
     if entry == "unpack_from_raw":
         return tuple(C.unpack_from_raw(raw))
     s = C.empty()
     s.read_from_raw(raw)
+    _LAST_DECODED[0] = s
     return (s.ccsds_days, s.ms_of_day)
+
+
+def _repacks_canonically(rec, case, entry, got):
+    """whatever preamble a decoder accepted, the stamp it hands out is a CDS short stamp: it packs to P-field 0x40 and its fields"""
+    s = _LAST_DECODED[0]
+    if s is None:
+        return
+    want = bytes([R.P_FIELD]) + int(got[0]).to_bytes(2, "big") + int(got[1]).to_bytes(4, "big")
+    try:
+        seen = (bytes(s.pack()), bytes(s.pfield))
+    except Exception as e:
+        rec.violation(f"C14.encode/CdsShortTimestamp.{entry}-then-pack/exception/{type(e).__name__}", case, repr(e), want)
+        return
+    if seen != (want, bytes([R.P_FIELD])):
+        rec.violation(f"C14.encode/CdsShortTimestamp.{entry}-then-pack/octets-or-pfield", case, seen, (want, bytes([R.P_FIELD])))
+
+
+def check_ms_of_today(rec: Rec):
+    """CdsShortTimestamp.ms_of_today(unix seconds) = millisecond of that day, for instants before and after 1970; arguments that
+    are exact in binary floating point (whole seconds and quarters), so that the expected value is not a matter of rounding"""
+    C = _C()
+    ks = [-4383 * 86400, -4383 * 86400 + 1, -86401, -86400, -86399, -43200, -1, 0, 1, 43200, 86399, 86400, 86401, 10 ** 9, 1234567890,
+          (65535 - 4383) * 86400 + 86399, -378691200 + 21600]
+    for k in ks:
+        for q in (0.0, 0.25, 0.5, 0.75):
+            x = k + q
+            exp = (k % 86400) * 1000 + int(q * 1000)
+            case = {"kind": "ms_of_today", "seconds": x}
+            rec.case(True, ops=1)
+            try:
+                got = C.ms_of_today(x)
+            except Exception as e:
+                rec.violation(f"C14.helper/CdsShortTimestamp.ms_of_today/exception/{type(e).__name__}", case, repr(e), exp)
+                continue
+            if got != exp:
+                rec.violation("C14.helper/CdsShortTimestamp.ms_of_today/wrong-millisecond" + ("/pre-1970" if x < 0 else ""), case, got, exp,
+                              repro=f"CdsShortTimestamp.ms_of_today({x!r})  # expected {exp}")
+    rec.outcome("ms_of_today-ok")
 
 
 def check_refuse(rec: Rec, entry, raw: bytes):
@@ -673,8 +717,11 @@ def check_refuse(rec: Rec, entry, raw: bytes):
         rec.outcome("accepted:0x40")
         if got != R.cds_short_fields(raw)[1:]:
             rec.violation(f"C14.decode/CdsShortTimestamp.{entry}/fields", case, got, R.cds_short_fields(raw)[1:])
+        else:
+            _repacks_canonically(rec, case, entry, got)
     else:
         rec.outcome("not-judged:accepted-other-cds-pfield")
+        _repacks_canonically(rec, case, entry, got)
 
 
 # ---------------------------------------------------------------------- run_shard
@@ -797,6 +844,7 @@ def run_shard(item):
                 n += 1
         rec.count("addition_cases", n)
     elif kind == "refuse":
+        check_ms_of_today(rec)
         bodies = [bytes(6), bytes.fromhex("010203040506"), bytes.fromhex("ffff05265bff")]
         n = 0
         for entry in ENTRIES:
@@ -856,6 +904,8 @@ def replay(case):
         check_add(rec, case["d"], case["ms"], tuple(case["td"]))
     elif k == "refuse":
         check_refuse(rec, case["entry"], case["raw"])
+    elif k == "ms_of_today":
+        check_ms_of_today(rec)
     elif k == "hist":
         run_history(rec, case["start"], case["d"], case["ms"], case["steps"], case["mode"])
     return rec.result()
